@@ -29,27 +29,27 @@ fn reads(ctx: &ArrCtx, c: &[u64]) -> Vec<(&'static str, bool, Out)> {
     let last = ArraySubset::new_with_start_shape(cshape.iter().map(|&s| s - 1).collect(), vec![1; rank]).unwrap();
     let csub = a.chunk_subset(c).ok();
     let mut v = vec![];
-    v.push(("chunk", true, classify(|| a.retrieve_chunk_opt(c, &o).map(|b| from_array_bytes(es, b)).map_err(|_| ()))));
-    v.push(("chunk_if_exists", true, classify(|| a.retrieve_chunk_if_exists_opt(c, &o).map(|b| b.map(|b| from_array_bytes(es, b)).unwrap_or_default()).map_err(|_| ()))));
+    v.push(("chunk", true, classify(|| a.retrieve_chunk_opt(c, &o).map(|b| from_array_bytes(es, b)).map_err(|e| { let _ = e.to_string(); }))));
+    v.push(("chunk_if_exists", true, classify(|| a.retrieve_chunk_if_exists_opt(c, &o).map(|b| b.map(|b| from_array_bytes(es, b)).unwrap_or_default()).map_err(|e| { let _ = e.to_string(); }))));
     if let Some(cs) = &csub {
         let region = cs.bound(a.shape()).unwrap_or(cs.clone());
         // a region equal to the chunk decodes the whole value; a clipped edge chunk goes through the partial route
         let full = &region == cs;
-        v.push(("array_subset", full, classify(|| a.retrieve_array_subset_opt(&region, &o).map(|b| from_array_bytes(es, b)).map_err(|_| ()))));
+        v.push(("array_subset", full, classify(|| a.retrieve_array_subset_opt(&region, &o).map(|b| from_array_bytes(es, b)).map_err(|e| { let _ = e.to_string(); }))));
     }
     let cache = ChunkCacheDecodedLruChunkLimit::new(4);
-    v.push(("cached_chunk", true, classify(|| a.retrieve_chunk_opt_cached(&cache, c, &o).map(|b| from_array_bytes(es, (*b).clone())).map_err(|_| ()))));
-    v.push(("subset_first", false, classify(|| a.retrieve_chunk_subset_opt(c, &one, &o).map(|b| from_array_bytes(es, b)).map_err(|_| ()))));
-    v.push(("subset_last", false, classify(|| a.retrieve_chunk_subset_opt(c, &last, &o).map(|b| from_array_bytes(es, b)).map_err(|_| ()))));
+    v.push(("cached_chunk", true, classify(|| a.retrieve_chunk_opt_cached(&cache, c, &o).map(|b| from_array_bytes(es, (*b).clone())).map_err(|e| { let _ = e.to_string(); }))));
+    v.push(("subset_first", false, classify(|| a.retrieve_chunk_subset_opt(c, &one, &o).map(|b| from_array_bytes(es, b)).map_err(|e| { let _ = e.to_string(); }))));
+    v.push(("subset_last", false, classify(|| a.retrieve_chunk_subset_opt(c, &last, &o).map(|b| from_array_bytes(es, b)).map_err(|e| { let _ = e.to_string(); }))));
     v.push(("pd_two", false, classify(|| {
-        let pd = a.partial_decoder_opt(c, &o).map_err(|_| ())?;
-        let ps = pd.partial_decode(&[one.clone(), last.clone()], &o).map_err(|_| ())?;
+        let pd = a.partial_decoder_opt(c, &o).map_err(|e| { let _ = e.to_string(); })?;
+        let ps = pd.partial_decode(&[one.clone(), last.clone()], &o).map_err(|e| { let _ = e.to_string(); })?;
         Ok(ps.into_iter().flat_map(|b| from_array_bytes(es, b)).collect())
     })));
     if let Some(cs) = &csub {
         let region = cs.bound(a.shape()).unwrap_or(cs.clone());
         let sc = ArrayShardedReadableExtCache::new(&*a);
-        v.push(("sharded_subset", false, classify(|| a.retrieve_array_subset_sharded_opt(&sc, &region, &o).map(|b| from_array_bytes(es, b)).map_err(|_| ()))));
+        v.push(("sharded_subset", false, classify(|| a.retrieve_array_subset_sharded_opt(&sc, &region, &o).map(|b| from_array_bytes(es, b)).map_err(|e| { let _ = e.to_string(); }))));
     }
     v
 }
